@@ -304,6 +304,14 @@ func (w *World) Apply(op Op) {
 		if err := w.DB.Create(&Rec{}, w.Cfg.Schema(&Rec{})); err != nil {
 			w.fail("settings-create-err", fmt.Sprintf("Create with new cache/async settings returned %v", err))
 		}
+	case "createflip":
+		// Create with a compatible schema whose compression flag differs from the stored one:
+		// the stored layout wins, data is preserved
+		sc := w.Cfg.Schema(&Rec{})
+		sc.Compress = !sc.Compress
+		if err := w.DB.Create(&Rec{}, sc); err != nil {
+			w.fail("createflip-err", fmt.Sprintf("Create with a compatible schema (other compression flag) returned %v", err))
+		}
 	case "reopennc":
 		// Close, then a new handle that does NOT call Create: the collection is loaded lazily by the next call
 		if err := w.DB.Close(); err != nil {
